@@ -266,6 +266,7 @@ Proof.
     intros H. injection H as <-. apply compress_fields_prefix in E as [c ->].
     rewrite <- app_assoc. apply is_prefix_app.
   - intros H. injection H as <-. apply is_prefix_app.
+  - intros H. injection H as <-. rewrite <- (app_nil_r (rule_id r)) at 2. apply is_prefix_app.
 Qed.
 
 (* ---- through the context manager ---------------------------------------------------------------- *)
